@@ -348,8 +348,9 @@ impl<'a> ProgGen<'a> {
         let w = self.fresh("v");
         let mut kinds = vec!["range-len", "range-lit", "range-inc", "arr", "enum", "zip", "rows", "strs", "range-neg", "range-empty", "setfn", "range-n"];
         if self.cfg.graphs { kinds.extend(["nodes", "edges", "edges3", "neigh", "enum-nodes"]); }
-        if outer.iter().any(|l| !l.rows.is_empty()) { kinds.extend(["inner-row", "inner-row-enum"]); }
-        if outer.iter().any(|l| !l.nodes.is_empty()) { kinds.extend(["inner-neigh"]); }
+        // loops over a value bound by an outer loop are only possible in that context: weight them up
+        if outer.iter().any(|l| !l.rows.is_empty()) { kinds.extend(["inner-row", "inner-row-enum", "inner-row", "inner-row-enum", "inner-row", "inner-row-enum"]); }
+        if outer.iter().any(|l| !l.nodes.is_empty()) { kinds.extend(["inner-neigh", "inner-neigh", "inner-neigh", "inner-neigh"]); }
         let k = *self.r.pick(&kinds);
         self.tag(&format!("loop:{}", k));
         let none = Loop { it: it1(&v, int(0)), idx: vec![], nums: vec![], rows: vec![], nodes: vec![] };
@@ -528,14 +529,14 @@ impl<'a> ProgGen<'a> {
         if quant == 2 { self.tag("nested-iteration"); }
         if loops.iter().any(|l| l.it.tuple) { self.tag("tuple-destructuring"); }
         let iters: Vec<It> = loops.iter().map(|l| l.it.clone()).collect();
-        let shape = self.r.below(if self.cfg.logic { 8 } else { 6 });
+        let shape = self.r.below(if self.cfg.logic { 10 } else { 6 });
         let (lhs, rel) = match shape {
             0 | 1 => { let s = self.scoped(&loops, 1); let c = self.coef(&loops); (s, Some((self.rel(), c))) }
             2 => { let t = self.lin_term(&loops, 1); let c = self.coef(&loops); (t, Some((self.rel(), c))) }
             3 => { let s = self.scoped(&loops, 0); let t = self.lin_term(&loops, 0); (bin(Op::Add, t, s), Some((self.rel(), int(self.r.range(0, 9))))) }
             4 => { let b = self.block(&loops); (b, Some((self.rel(), int(self.r.range(1, 9))))) }
             5 => { let s = self.scoped(&loops, 0); let s2 = self.scoped(&loops, 0); (s, Some((self.rel(), s2))) }
-            6 => { let l = self.logic_scoped(&loops); (l, None) }
+            6 | 8 | 9 => { let l = self.logic_scoped(&loops); (l, None) }
             _ => { let a = self.var_ref(&loops, true); let b = self.var_ref(&loops, true); (bin(*self.r.pick(&[Op::Or, Op::And, Op::Xor, Op::Iff]), a, b), None) }
         };
         // names
